@@ -264,7 +264,7 @@ def failover_close_audit(res, seed, count):
         nserv = rng.choice([2, 3])
         cfg = (nserv, rng.choice([0, 1, 2]), rng.random() < 0.5, rng.random() < 0.3, rng.random() < 0.25)
         seq = c13.random_sequence(rng, nserv)[:rng.randrange(6, 40)]
-        closer = rng.choice(["close", "close", "quit"])
+        closer = rng.choice(["close", "close", "quit", "disconnect_all"])
         case = ("failover-close", cfg, seq, closer)
         if not _failover_close_case(res, case):
             break
